@@ -95,6 +95,188 @@ fn gen_e2e_shape(r: &mut Rng, lat: bool, allow_hs: bool) -> (String, f64, bool) 
     }
 }
 
+// =====================================================================================================================
+// follow-up families: standing pairs inside / just outside the target distance, height fields, composites
+// =====================================================================================================================
+
+fn mk(tok: &str) -> Box<dyn Shape> { let mut a = Args::new(tok); shape(&mut a) }
+
+/// a convex shape handled by the GJK route (no ball/ball, no half-space): (tokens, bounding radius)
+fn gen_gjk_shape(r: &mut Rng, lat: bool, offset: &V) -> (String, f64) {
+    let sz = if lat { *r.pick(&[0.5, 1.0, 2.0]) } else { r.logu(0.3, 4.0) };
+    let pt = |r: &mut Rng| -> P { dx::gen_p(r, lat, sz.max(1.0)) + *offset };
+    match r.below(6) {
+        0 => { let he = if lat { gen_he(r, true) } else { V::from_fn(|_, _| r.logu(0.2, 4.0)) }; (hshape_cuboid(&he), he.norm()) }   // cuboids are always centred
+        1 => { let a = pt(r); let b2 = pt(r); let rad = if lat { *r.pick(&[0.25, 0.5, 1.0]) } else { r.logu(0.1, 2.0) };
+               (format!("p {} {} {}", dx::hp(&a), dx::hp(&b2), hx(rad)), a.coords.norm().max(b2.coords.norm()) + rad) }
+        2 => loop { let a = pt(r); let b2 = pt(r); let c = pt(r);
+               let ab = b2 - a; let ac = c - a; let area2 = (ab.norm_squared() * ac.norm_squared() - ab.dot(&ac).powi(2)).max(0.0).sqrt();
+               if area2 > 0.1 * (ab.norm() * ac.norm()).max(1e-9) && ab.norm() > 0.2 && ac.norm() > 0.2 {
+                   return (format!("t {} {} {}", dx::hp(&a), dx::hp(&b2), dx::hp(&c)), a.coords.norm().max(b2.coords.norm()).max(c.coords.norm())); } },
+        3 => loop { let a = pt(r); let b2 = pt(r);
+               if (b2 - a).norm() > 0.2 { return (format!("s {} {}", dx::hp(&a), dx::hp(&b2)), a.coords.norm().max(b2.coords.norm())); } },
+        4 => { let k = 5 + r.below(4) as usize; let pts: Vec<P> = (0..k).map(|_| pt(r)).collect();
+               let rad = pts.iter().map(|p| p.coords.norm()).fold(0.0, f64::max);
+               (format!("x {} {}", k, pts.iter().map(|p| dx::hp(p)).collect::<Vec<_>>().join(" ")), rad) }
+        _ => { let rad = if lat { *r.pick(&[0.5, 1.0]) } else { r.logu(0.2, 3.0) }; (hshape_ball(rad), rad) }
+    }
+}
+
+/// standing pair (zero RELATIVE velocity, equal world velocities) with an initial gap placed relative to the target
+/// distance: strictly inside `(0, target]` (a hit at t = 0 is due) or just above it (`None` is due)
+fn gen_gap_case(r: &mut Rng, lat: bool) -> Option<(String, String)> {
+    let zero = V::zeros();
+    let (s1, rad1) = gen_gjk_shape(r, lat, &zero);
+    let (s2, rad2) = loop { let x = gen_gjk_shape(r, lat, &zero); if !(s1.starts_with("b ") && x.0.starts_with("b ")) || r.below(4) == 0 { break x; } };
+    let (g1, g2) = (mk(&s1), mk(&s2));
+    let target = if lat { *r.pick(&[0.125, 0.25, 0.5, 1.0]) } else { r.logu(0.08, 2.0) };
+    let factor = *r.pick(&[0.25, 0.5, 0.75, 0.9, 1.0 - 1.0 / 64.0, 1.0 + 1.0 / 16.0, 1.25, 2.0]);
+    let gap = target * factor;
+    let pos1 = dx::gen_iso(r, lat, 5.0);
+    let mut pos2 = dx::gen_iso(r, lat, 5.0);
+    let dir = gen_unit(r, lat);
+    let d_at = |s: f64, pos2: &mut Iso| -> Option<f64> { pos2.translation.vector = pos1.translation.vector + dir * s; query::distance(&pos1, &*g1, pos2, &*g2).ok() };
+    // bisection on the shift along `dir`: lo has distance <= gap, hi has distance > gap
+    let mut hi = rad1 + rad2 + gap + 1.0; let mut lo = 0.0;
+    if d_at(hi, &mut pos2)? <= gap || d_at(lo, &mut pos2)? > gap { return None; }
+    for _ in 0..60 { let mid = 0.5 * (lo + hi); if d_at(mid, &mut pos2)? > gap { hi = mid; } else { lo = mid; } }
+    let d = d_at(hi, &mut pos2)?;
+    if (d - gap).abs() > 1e-6 * (1.0 + gap) { return None; }   // the distance query is not continuous here: not usable
+    let w = match r.below(3) { 0 => V::zeros(), _ => dx::gen_v(r, lat, 5.0) };       // the same world velocity for both
+    let o = ShapeCastOptions { max_time_of_impact: if lat { *r.pick(&[0.5, 1.0, 4.0]) } else { r.logu(0.1, 50.0) }, target_distance: target,
+                               stop_at_penetration: r.below(4) != 0, compute_impact_geometry_on_penetration: r.bool() };
+    let (a, b2) = if r.bool() { ((pos1, s1), (pos2, s2)) } else { ((pos2, s2), (pos1, s1)) };
+    Some(("e2e".into(), format!("{} {} {} {} {} {} {}", dx::hiso(&a.0), dx::hv(&w), a.1, dx::hiso(&b2.0), dx::hv(&w), b2.1, hopts(&o))))
+}
+
+/// a small moving body for the terrain / composite runs: (tokens, radius)
+fn gen_small_body(r: &mut Rng, lat: bool, size: f64) -> (String, f64) {
+    match r.below(3) {
+        0 => { let rad = size * if lat { 0.5 } else { r.uniform(0.3, 0.8) }; (hshape_ball(rad), rad) }
+        1 => { let he = V::from_fn(|_, _| size * if lat { *r.pick(&[0.25, 0.5]) } else { r.uniform(0.2, 0.7) }); (hshape_cuboid(&he), he.norm()) }
+        _ => { let hh = size * if lat { 0.5 } else { r.uniform(0.2, 0.8) }; let rad = size * if lat { 0.25 } else { r.uniform(0.15, 0.5) };
+               let ax = axis(r.below(3) as usize, hh); (format!("p {} {} {}", dx::hp(&P::from(-ax)), dx::hp(&P::from(ax)), hx(rad)), hh + rad) }
+    }
+}
+
+/// height field (2-D: segments, 3-D: triangles, with removed / zig-zag cells) against a small ball / cuboid / capsule that
+/// flies over several cells before coming down: axis-aligned, shallow-angle and diagonal horizontal velocities, starts
+/// inside and outside the horizontal range, FINITE `max_time_of_impact` placed around the true first impact
+fn gen_hf_case(r: &mut Rng, lat: bool) -> Vec<(String, String)> {
+    let hf = gen_hf(r, lat);
+    let ghf = mk(&hf.tok);
+    let cwmin = hf.cw.iter().take(hf.haxes.len()).cloned().fold(f64::MAX, f64::min);
+    let bsz = cwmin * if lat { 0.5 } else { r.uniform(0.3, 0.9) };
+    let (sb, radb) = gen_small_body(r, lat, bsz);
+    let gb = mk(&sb);
+    // horizontal velocity kind
+    let nh = hf.haxes.len();
+    let mut vel = V::zeros();
+    let sgn = |r: &mut Rng| if r.bool() { 1.0 } else { -1.0 };
+    let kind = r.below(5);
+    if nh == 1 { vel[hf.haxes[0]] = sgn(r); } else {
+        let (a0, a1) = if r.bool() { (hf.haxes[0], hf.haxes[1]) } else { (hf.haxes[1], hf.haxes[0]) };
+        match kind {
+            0 | 1 => { vel[a0] = sgn(r); }                                              // axis-aligned
+            2 => { vel[a0] = sgn(r); vel[a1] = sgn(r) * if lat { 1.0 / 16.0 } else { r.uniform(0.005, 0.12) }; }   // shallow angle
+            3 => { vel[a0] = sgn(r); vel[a1] = sgn(r); }                                // diagonal
+            _ => { vel[a0] = sgn(r) * r.uniform(0.2, 1.0); vel[a1] = sgn(r) * r.uniform(0.2, 1.0); }
+        }
+    }
+    // start: inside the horizontal range, or outside it (flying in)
+    let mut start = V::zeros();
+    let outside = r.below(3) == 0;
+    for (k, &ax) in hf.haxes.iter().enumerate() {
+        let h = hf.half[k];
+        start[ax] = if outside && vel[ax] != 0.0 { -vel[ax].signum() * (h + hf.cw[k] * if lat { 1.5 } else { r.uniform(0.5, 2.5) }) }
+                    else if vel[ax] != 0.0 { -vel[ax].signum() * h * if lat { *r.pick(&[0.25, 0.5, 0.75]) } else { r.uniform(0.0, 0.9) } }
+                    else { h * if lat { *r.pick(&[-0.5, 0.0, 0.25]) } else { r.uniform(-0.8, 0.8) } };
+    }
+    let clearance = if lat { *r.pick(&[0.25, 0.5, 1.0]) } else { r.uniform(0.1, 1.5) };
+    start[1] = hf.top + radb + clearance;
+    // come down after flying over ~1.5 .. 6 cells
+    let cells = if lat { *r.pick(&[1.5, 2.5, 4.0, 6.0]) } else { r.uniform(1.0, 6.0) };
+    let hspeed = vel.norm();
+    vel[1] = -(clearance + if r.bool() { 0.0 } else { 0.5 }) * hspeed / (cells * cwmin);
+    let speed = if lat { *r.pick(&[0.5, 1.0, 4.0]) } else { r.logu(0.2, 20.0) };
+    vel *= speed;
+    let target = if r.below(3) == 0 { if lat { 0.125 } else { r.uniform(0.02, 0.3) } } else { 0.0 };
+    // common pose of the scene, relative velocities split between the two bodies
+    let m = dx::gen_iso(r, lat, 5.0);
+    let pos_hf = m; let mut pos_b = m; pos_b.translation.vector = m * P::from(start) - P::origin();
+    let pos_b = if r.bool() { pos_b } else { pos_b * { let mut q = dx::gen_iso(r, lat, 0.0); q.translation.vector = V::zeros(); q } };
+    let w = if r.bool() { V::zeros() } else { dx::gen_v(r, lat, 2.0) };
+    let (vel_hf, vel_b) = (w, w + m * vel);
+    // reference first impact by brute force over the cells' parts, unbounded in time
+    let huge = ShapeCastOptions { max_time_of_impact: 1.0e6, target_distance: target, stop_at_penetration: true, compute_impact_geometry_on_penetration: false };
+    let bf = parts_cast(&pos_hf, &vel_hf, &parts(&*ghf), &pos_b, &vel_b, &parts(&*gb), huge).ok().flatten();
+    let span = (hf.half[0] + hf.half[1]) * 4.0 / (hspeed * speed).max(1e-9);
+    let maxes: Vec<f64> = match bf {
+        Some(t) if t > 1e-9 => vec![t * (1.0 + 1.0 / 64.0) + 1e-3, t * 1.5, t * 4.0, t * 0.75],
+        _ => vec![span, span * 0.25],
+    };
+    let mut out = Vec::new();
+    for (k, mx) in maxes.iter().enumerate() {
+        if k >= 2 && r.bool() { continue; }
+        let o = ShapeCastOptions { max_time_of_impact: *mx, target_distance: target, stop_at_penetration: r.below(4) != 0, compute_impact_geometry_on_penetration: r.bool() };
+        let args = if (k + out.len()) % 2 == 0 { format!("{} {} {} {} {} {} {}", dx::hiso(&pos_hf), dx::hv(&vel_hf), hf.tok, dx::hiso(&pos_b), dx::hv(&vel_b), sb, hopts(&o)) }
+                   else { format!("{} {} {} {} {} {} {}", dx::hiso(&pos_b), dx::hv(&vel_b), sb, dx::hiso(&pos_hf), dx::hv(&vel_hf), hf.tok, hopts(&o)) };
+        out.push(("e2e".to_string(), args));
+    }
+    out
+}
+
+/// Compound / TriMesh / Polyline: (tokens, local points to aim at, radius)
+fn gen_composite(r: &mut Rng, lat: bool) -> (String, Vec<P>, f64) {
+    match r.below(3) {
+        0 => { let k = 2 + r.below(3) as usize; let mut toks = Vec::new(); let mut aims = Vec::new(); let mut rad: f64 = 0.0;
+               for _ in 0..k { let mut m = dx::gen_iso(r, lat, 0.0); m.translation.vector = dx::gen_v(r, lat, 4.0) * if lat { 0.5 } else { 1.0 };
+                   let psz = if lat { 1.0 } else { r.uniform(0.5, 2.0) };
+                   let (s, rs) = gen_small_body(r, lat, psz);
+                   aims.push(P::from(m.translation.vector)); rad = rad.max(m.translation.vector.norm() + rs);
+                   toks.push(format!("{} {}", dx::hiso(&m), s)); }
+               (format!("cp {} {}", k, toks.join(" ")), aims, rad) }
+        1 => { let (tok, pts) = gen_trimesh_tok(r, lat); let rad = pts.iter().map(|p| p.coords.norm()).fold(0.0, f64::max); (tok, pts, rad) }
+        _ => { let n = 4 + r.below(4) as usize; let mut pts = Vec::new(); let mut cur = dx::gen_p(r, lat, 2.0);
+               for _ in 0..n { pts.push(cur); cur += dx::gen_v(r, lat, 2.0) * if lat { 0.5 } else { 1.0 } + axis(0, 0.5); }
+               let rad = pts.iter().map(|p| p.coords.norm()).fold(0.0, f64::max);
+               (format!("pl {} {}", n, pts.iter().map(|p| dx::hp(p)).collect::<Vec<_>>().join(" ")), pts, rad) }
+    }
+}
+
+/// composite (either order) against a shape that may be far off its own origin, rotated start poses; linear e2e run and
+/// nonlinear run with zero angular velocity
+fn gen_composite_case(r: &mut Rng, lat: bool) -> Vec<(String, String)> {
+    let (sc, aims, radc) = gen_composite(r, lat);
+    // the other body: off-centre in its own frame most of the time
+    let off = if r.below(4) == 0 { V::zeros() } else { gen_unit(r, lat) * if lat { *r.pick(&[2.0, 4.0, 6.0]) } else { r.uniform(1.5, 8.0) } };
+    let (sb, _) = gen_gjk_shape(r, lat, &off);
+    let gb = mk(&sb);
+    let bs = gb.compute_local_bounding_sphere();
+    let pos1 = dx::gen_iso(r, lat, 5.0);
+    let mut pos2 = dx::gen_iso(r, false, 5.0);            // a generic (non-lattice) rotation
+    if lat { pos2 = dx::gen_iso(r, true, 5.0); }
+    let aim = pos1 * *r.pick(&aims);
+    let dir = gen_unit(r, lat);
+    let sep = match r.below(5) { 0 => 0.6, 1 => 1.2, 2 => 2.0, _ => 3.0 };
+    let centre2 = aim + dir * ((radc * 0.5 + bs.radius()) * sep);
+    pos2.translation.vector = centre2.coords - pos2.rotation * bs.center().coords;
+    let speed = if lat { *r.pick(&[0.5, 1.0, 4.0]) } else { r.logu(0.2, 20.0) };
+    let side = { let o = ortho(&dir); let n = o.norm(); if n > 0.0 { o / n } else { o } };
+    let vrel = (-dir + side * match r.below(4) { 0 => 0.0, 1 => 0.1, 2 => 0.3, _ => 1.0 }) * speed;
+    let vel1 = if r.bool() { V::zeros() } else { dx::gen_v(r, lat, 2.0) };
+    let vel2 = vel1 + vrel;
+    let travel = (radc + bs.radius()) * 3.0 * sep / speed;
+    let mut o = ShapeCastOptions { max_time_of_impact: travel * *r.pick(&[0.5, 1.0, 2.0]), target_distance: 0.0, stop_at_penetration: r.below(4) != 0,
+                                   compute_impact_geometry_on_penetration: r.bool() };
+    let fmt = |o: &ShapeCastOptions, swap: bool| if !swap { format!("{} {} {} {} {} {} {}", dx::hiso(&pos1), dx::hv(&vel1), sc, dx::hiso(&pos2), dx::hv(&vel2), sb, hopts(o)) }
+                                    else { format!("{} {} {} {} {} {} {}", dx::hiso(&pos2), dx::hv(&vel2), sb, dx::hiso(&pos1), dx::hv(&vel1), sc, hopts(o)) };
+    let swap = r.bool();
+    let mut out = vec![("nl".to_string(), fmt(&o, swap)), ("e2e".to_string(), fmt(&o, swap))];
+    if r.bool() { o.target_distance = if lat { 0.25 } else { r.uniform(0.02, 0.5) }; out.push(("e2e".to_string(), fmt(&o, !swap))); }
+    out
+}
+
 pub fn gen(r: &mut Rng, thorough: bool) -> Vec<(String, String)> {
     let n = if thorough { 4000 } else { 400 };
     let mut v: Vec<(String, String)> = Vec::new();
@@ -226,6 +408,14 @@ pub fn gen(r: &mut Rng, thorough: bool) -> Vec<(String, String)> {
             v.push(("e2e".into(), args.clone()));
             if o.target_distance == 0.0 { v.push(("nl".into(), args)); }
         }
+    }
+    // ---- follow-up families (after the original stream, so that the latter is unchanged)
+    let m = if thorough { 1200 } else { 120 };
+    for it in 0..m {
+        let lat = it % 2 == 0;
+        if let Some(c) = gen_gap_case(r, lat) { v.push(c); }
+        v.extend(gen_hf_case(r, lat));
+        v.extend(gen_composite_case(r, lat));
     }
     v
 }
